@@ -546,6 +546,13 @@ Stylesheet::postConstruction(StylesheetConstructionContext&     constructionCont
 
         while(i != theEnd)
         {
+            // xsl:namespace-alias applies to the whole stylesheet, so the aliases
+            // declared here (and those inherited from our own importers) must be
+            // known to the imported stylesheet before its literal result elements
+            // process them.  They override the imported stylesheet's own aliases,
+            // since this stylesheet has the higher import precedence.
+            (*i)->getNamespacesHandler().overrideNamespaceAliases(m_namespacesHandler);
+
             (*i)->postConstruction(constructionContext);
 
             m_namespacesHandler.copyNamespaceAliases((*i)->getNamespacesHandler());
